@@ -156,6 +156,11 @@ pub fn check_frame(props: Props, view: &NodeView, raw: &[u8], stats: &mut Stats)
 }
 
 fn check_source_rule(view: &NodeView, ip: &Ip, pkt: &Packet) -> Result<(), Violation> {
+    // later fragments repeat the header of the first one, which was judged when it left (the interface's
+    // addresses may have changed since the datagram entered the fragmenter)
+    if ip.v4.as_ref().map(|v| v.frag_off > 0).unwrap_or(false) {
+        return Ok(());
+    }
     if view.raw_tx {
         if let Some(L4::Other(_)) = pkt.l4 {
             return Ok(());
